@@ -2,6 +2,7 @@ import Driver.Util
 import ClairModel.Model.TarSeg
 import ClairModel.Model.RpmHeader
 import ClairModel.Model.RpmDb
+import ClairModel.Model.RpmFiles
 
 /-!
   Model driver of property C06.  One answer line per operation line:
@@ -24,12 +25,25 @@ def doSeg (bs : List UInt8) : String :=
   | .ok ss => s!"ok reads={r.reads} n={ss.length} {renderSegs ss}".trimRight
   | .error e => (if e.isFormat then "err:format" else "err:io") ++ s!" reads={r.reads}"
 
+def byteSum0 (bs : List UInt8) : Nat := bs.foldl (fun a c => a + c.toNat) 0
+
+/-- `files=<count>:<total length>:<byte sum>` of `Info.Filenames` -/
+def renderFiles (bs : List UInt8) : String :=
+  match RpmHeader.parse bs with
+  | none => "files=?"
+  | some h =>
+    match RpmFiles.fileNames h with
+    | .panic => "files=panic"
+    | .files fs => s!"files={fs.length}:{(fs.map (·.length)).sum}:{(fs.map byteSum0).sum}"
+
 def doRpmHdr (bs : List UInt8) : String :=
   match RpmHeader.run bs with
   | .parseErr => "err:parse"
   | .loadErr => "err:load"
   | .panic => "panic"
   | .ok i =>
+    if renderFiles bs == "files=panic" then "panic" else
+    renderFiles bs ++ " " ++
     s!"ok name={Driver.hex i.name} ver={Driver.hex i.version} rel={Driver.hex i.release} epoch={i.epoch} arch={Driver.hex i.arch} src={Driver.hex i.source} mod={Driver.hex i.module} digest={Driver.hex i.digest} algo={i.digestAlgo} sig={i.sigLen}"
 
 def byteSum (bs : List UInt8) : Nat := bs.foldl (fun a c => a + c.toNat) 0
